@@ -109,6 +109,14 @@ namespace vf
             throw verif_exc{ rid< Rule >::value, in.byte(), 0, 0 };
          }
       }
+
+      // try_catch_*_raise_nested: the new exception carries 5000 + rule id and the ambient (start) position;
+      // std::throw_with_nested itself is not modelled
+      template< typename Ambient, typename... States >
+      [[noreturn]] static void raise_nested( const Ambient& am, States&&... /*unused*/ )
+      {
+         throw verif_exc{ 5000 + rid< Rule >::value, (unsigned long)am.byte, (unsigned long)am.line, (unsigned long)am.column };
+      }
    };
 
    // void actions attached to every rule (C01: outcome independent of attached void actions)
@@ -387,7 +395,21 @@ namespace vf
       }
    };
 
+   // must_if<> control (C05): rules 1 (sym<1>) and 101 (named<1,...>) raise on local failure, without message
+   struct verrors
+   {
+      template< typename Rule >
+      static constexpr const char* message = nullptr;
+
+      template< typename Rule >
+      static constexpr bool raise_on_failure = ( rid< Rule >::value == 1 ) || ( rid< Rule >::value == 101 );
+   };
+
+   template< typename Rule >
+   using mi_control = typename tao::pegtl::must_if< verrors, lcontrol, false >::template control< Rule >;
+
 }  // namespace vf
+
 
 
 
